@@ -33,7 +33,10 @@ int run_cycle(const Args& a) {
         CycleObs o;
         uint64_t et0 = ctl::count_of(ctl::point::EPOCH_LOOP);
         uint64_t gt0 = ctl::count_of(ctl::point::GC_LOOP);
+        g_lifecycle_call.store("init");
         yk::init();
+        g_lifecycle_call.store(nullptr);
+        g_progress.fetch_add(1, std::memory_order_relaxed);
         rep.eval();
         // ---- fresh system?
         std::vector<std::pair<std::string, yk::tree_instance*>> lst;
@@ -101,6 +104,7 @@ int run_cycle(const Args& a) {
             o.advanced = o.epoch_end >= o.epoch_start + 3;
             o.reclaimed = o.reclaimed_running >= 1;
             if (o.advanced && o.reclaimed) { break; }
+            g_progress.fetch_add(1, std::memory_order_relaxed);
             std::this_thread::sleep_for(std::chrono::milliseconds(YAKUSHIMA_EPOCH_TIME));
         }
         (void) c1;
@@ -108,7 +112,9 @@ int run_cycle(const Args& a) {
         coherence_check(rep, "cyc", model, true, nullptr);
         if (!capacity_first) { capacity_test(); }
         if (do_destroy) {
+            g_lifecycle_call.store("destroy");
             status d = yk::destroy();
+            g_lifecycle_call.store(nullptr);
             rep.count("destroy_calls");
             if (d != status::OK_DESTROY_ALL) { rep.violation("cycle:destroy-status", "destroy returned " + st(d), "{}"); }
             // empty but usable
@@ -133,8 +139,21 @@ int run_cycle(const Args& a) {
             }
             for (std::size_t i = 0; i + 1 < toks.size(); ++i) { yk::leave(toks[i]); }
             if (!toks.empty()) { rep.count("cycles_ending_with_open_session"); }
+            if (!toks.empty() && r.chance(1, 2)) {
+                // the abandoned session gets old: the epoch advances (or tries to) while it is open, then fin() is called
+                uint64_t e0 = yk::epoch_management::get_epoch();
+                for (int w = 0; w < 40 && yk::epoch_management::get_epoch() < e0 + 3; ++w) {
+                    std::this_thread::sleep_for(std::chrono::milliseconds(YAKUSHIMA_EPOCH_TIME));
+                    g_progress.fetch_add(1, std::memory_order_relaxed);
+                }
+                rep.count("cycles_ending_with_an_open_session_older_than_an_epoch");
+            }
         }
+        g_progress.fetch_add(1, std::memory_order_relaxed);
+        g_lifecycle_call.store("fin");
         yk::fin();
+        g_lifecycle_call.store(nullptr);
+        g_progress.fetch_add(1, std::memory_order_relaxed);
         o.epoch_ticks = ctl::count_of(ctl::point::EPOCH_LOOP) - et0;
         o.gc_ticks = ctl::count_of(ctl::point::GC_LOOP) - gt0;
         alloc::Counters c2 = alloc::counters();
